@@ -16,14 +16,15 @@ LEVEL_TEXT = ('partial. Lean 4 theorems, for all cubes/patterns/oversampling/fra
               'the Bayer mosaic (np.tile then np.repeat on both axes) has the image shape when the size is a multiple of d*os (one-row '
               'non-multiples are broadcast to an empty result by NumPy: modelled, outside the quantifier) and assigns to sub-pixel (i,j) the colour '
               'pattern[(i/os)%d][(j/os)%d]; equal QEs reproduce the monochrome result and the channels sum to the flat image; DN = max 0 (floor '
-              '(gain polynomial at the clipped count)) for the four gain forms, never rounded up, non-negative, monotone for every gain curve that '
+              '(gain polynomial at the clipped count)) for the four gain forms with the exponents of the source power cube, steps in source order, never rounded up, refusal of a Bayer image iff its size is not a multiple (>= 2 rows/cols), non-negative, monotone for every gain curve that '
               'is non-decreasing on [0, cap], warning iff a pixel exceeds capacity. Hand model checked against lentil.detector on exact dyadic data.')
 LEVEL_NOTE = ('partial: "input frame untouched" and "requested dtype" are observed by the correspondence (read-only, snapshotted '
               'frames; dtype compared) and by the regenerated effect table of C10, not proved about NumPy; a non-flat Spectrum QE agrees with a '
               'vector only through the sampled correspondence (the theorem covers flat spectra and unit invariance); float rounding is not '
-              'modelled (test data is dyadic so float64 is exact); adc/bayer index bookkeeping is hand-modelled + pinned, not translated.')
+              'modelled (test data is dyadic so float64 is exact). The Bayer tile/repeat bookkeeping, the adc gain dispatch, power-cube loop, einsum '
+              'subscripts and step order are REGENERATED from detector.py (Gen/DetectorIdx.lean): mosaic_*, adc_matches_source, power_cube_exponent depend on them.')
 TECHNIQUE = 'Lean 4 proof (omega/Int.ediv-emod, ordered-field algebra, Int.floor) over a hand model with exact differential correspondence'
-GEN = ['Effects', 'Units']
+GEN = ['Effects', 'Units', 'DetectorIdx']
 OPS = ['C16']
 RULE = ('extremes stream (12 per quick run): wavelengths a hair inside/outside the QE band in m/um/nm/angstrom, gain values 2^-k below an '
         'integer; Bayer sizes with only the rows, only the columns, or a single row/column off the multiple; cases: collect_charge on cubes (1..4 slices, shapes 1..5, dyadic signed photons, 2-D input), QE as scalar / vector / Spectrum '
@@ -319,6 +320,10 @@ def _qe_obj(q, lentil):
     grid = np.array([float(Fr(g) * u) for g in q['grid_nm']])
     return lentil.radiometry.Spectrum(grid, _np(q['val']), waveunit=q['unit'])
 
+def _wu(c):
+    """the waveunit argument; omitted in half of the nm cases so the documented default ('nm') is exercised"""
+    return {} if (c['waveunit'] == 'nm' and c.get('hseed_default', len(c['wave_nm']) + c['shape'][0]) % 2 == 0) else {'waveunit': c['waveunit']}
+
 def _wave(c):
     u = UNITS[c['waveunit']]
     return np.array([float(Fr(w) * u) for w in c['wave_nm']])
@@ -342,9 +347,9 @@ def impl(c):
                 # the later call must see the current values (and be linear in them)
                 final = np.array(qe.value, copy=True)
                 qe.value = final[::-1] * 0.5 + 0.125
-                D.collect_charge(img, _wave(c), qe, waveunit=c['waveunit'])
+                D.collect_charge(img, _wave(c), qe, **_wu(c))
                 qe.value = final
-            out = D.collect_charge(img, _wave(c), qe, waveunit=c['waveunit'])
+            out = D.collect_charge(img, _wave(c), qe, **_wu(c))
             return {'shape': list(out.shape), 'out': _pairs(out), 'untouched': img.tobytes() == snap}
         if k in ('bayer', 'badpattern'):
             R, C = c['shape']
@@ -355,16 +360,16 @@ def impl(c):
                 specs = [q for q in args[2:5] if isinstance(q, lentil.radiometry.Spectrum)]
                 finals = [np.array(q.value, copy=True) for q in specs]
                 for q, f in zip(specs, finals): q.value = f[::-1] * 0.5 + 0.125
-                D.collect_charge_bayer(*args, oversample=c['os'], waveunit=c['waveunit'])
+                D.collect_charge_bayer(*args, oversample=c['os'], **_wu(c))
                 for q, f in zip(specs, finals): q.value = f
-            flat = D.collect_charge_bayer(*args, oversample=c['os'], waveunit=c['waveunit'])
+            flat = D.collect_charge_bayer(*args, oversample=c['os'], **_wu(c))
             ch = D.collect_charge_bayer(*args, oversample=c['os'], waveunit=c['waveunit'], flatten=False)
             if list(flat.shape) != [R, C]:
                 return {'shape': list(flat.shape), 'broadcast': True, 'size': int(flat.size), 'untouched': img.tobytes() == snap}
             res = {'shape': list(flat.shape), 'flat': _pairs(flat), 'r': _pairs(ch[0]), 'g': _pairs(ch[1]), 'b': _pairs(ch[2]),
                    'untouched': img.tobytes() == snap}
             if c.get('same_qe'):
-                res['mono'] = _pairs(D.collect_charge(img, _wave(c), _qe_obj(c['qe_r'], lentil), waveunit=c['waveunit']))
+                res['mono'] = _pairs(D.collect_charge(img, _wave(c), _qe_obj(c['qe_r'], lentil), **_wu(c)))
             return res
         if k == 'adc':
             R, C = c['shape']
